@@ -237,6 +237,8 @@ def run_history(s, ctx, hseed, nsteps, force_zero_did=False, wrap=False):
                     op = ('block',) if xfer['sent'] < xfer['total'] and rng.random() < 0.9 else ('exit',)
                 elif r < 0.95:
                     op = ('exit',)
+                elif r < 0.965:
+                    op = ('blockfail',)
                 else:
                     op = ('simple', rng.choice([('cs', rng.choice([1, 2, 3])), ('tp',), ('er', 1), ('rs', 1, b''), ('sk', 2, b'\x11\x22'), ('rc', 0x1234, 1, None),
                                                 ('cd', 1, None)]))
@@ -264,6 +266,29 @@ def run_history(s, ctx, hseed, nsteps, force_zero_did=False, wrap=False):
                     st['cmf'] = rng.choice([8, 16, 32])
                     client.set_config('server_memorysize_format', st['cmf'])
                 trail.append('config %s -> %s' % (what, cfg_line(st)))
+                continue
+            if op[0] == 'blockfail':
+                # a call that fails inside a payload-override / suppress-positive-response block (the exception leaves the block); the frames used do not change the ECU
+                which = rng.choice(['override-negative', 'override-unexpected', 'suppress-negative', 'override-literal-error'])
+                try:
+                    if which == 'override-negative':
+                        with client.payload_override(b'\x22\xff\xfe'):            # a record nobody wrote: NRC 0x31
+                            client.read_data_by_identifier([rng.choice(list(st['dids']) or [0x1234])] if st['dids'] else [0x1234])
+                    elif which == 'override-unexpected':
+                        with client.payload_override(lambda p: b'\x3e\x00'):       # answered 7E 00: not the service that was asked
+                            client.ecu_reset(1)
+                    elif which == 'suppress-negative':
+                        with client.suppress_positive_response(wait_nrc=True):
+                            client.routine_control(0x1234, 1, b'')                 # fewer than the ECU wants? no: answered, then a block exit by exception
+                            raise KeyError('user code fails inside the block')
+                    else:
+                        with client.payload_override(b'\x22\xff\xfe'):
+                            raise KeyError('user code fails inside the block')
+                except Exception as e:  # noqa
+                    trail.append('%s -> %s' % (which, type(e).__name__))
+                else:
+                    trail.append('%s -> returned' % which)
+                s.count('blockfail:' + which)
                 continue
             if op[0] == 'wdbi':
                 _, did, v = op
@@ -446,6 +471,11 @@ def run_history(s, ctx, hseed, nsteps, force_zero_did=False, wrap=False):
             if norm(got) == 'refused' and len(frames) > nfr:
                 s.fail({'site': desc, 'history': hseed, 'step': step, 'input': ' ; '.join(trail[-8:]), 'class': 'undocumented exception after a frame was sent', 'observed': got,
                         'required': 'a result or a documented exception'})
+            if op[0] in ('wmem', 'rmem', 'upload', 'download') and norm(got) == 'refused' and len(frames) == nfr:
+                from . import c14
+                if c14.expected_widths(a, z, af, mf, st['caf'], st['cmf']) is not None:
+                    s.fail({'site': desc, 'history': hseed, 'step': step, 'input': ' ; '.join(trail[-8:] + [desc]), 'class': 'a range that fits the widths in force is refused: it can be neither written nor read',
+                            'observed': got, 'required': 'the request reaches the ECU (address and size fit the %s widths)' % ('explicit' if af or mf else 'configured / automatic')})
             got, want = norm(got), norm(want)
             trail.append('%s -> %s' % (desc, got.split(' ')[0] if not got.startswith('ok') else 'ok'))
             s.evaluations += 1
